@@ -39,6 +39,18 @@ Definition c_strtoull (base : nat) (s : list N) : Z * nat * bool :=
 
 Inductive want := WComplex | WFloat | WUnsigned | WSigned.
 
+(* Variants of the code.  All false = src/parse.c as it is.  Each flag is one
+   proposed repair that is waiting to be applied; the check finds out which
+   variant the library under test is (see notes/C08.md):
+     c_uflow  proposed_fixes/C07-3: strtod ERANGE with |result| < 1 is accepted
+     c_oflow  proposed_fixes/C08-5: strtod ERANGE is accepted whatever the result
+     c_zero   proposed_fixes/C07-4: an integer zero is left to strtod when a
+              floating-point value is wanted (so that -0 keeps its sign)
+     c_ullpos proposed_fixes/C08-4: strtoull is only tried after a POSITIVE
+              strtoll overflow *)
+Record cfg := mkCfg { c_uflow : bool; c_oflow : bool; c_zero : bool; c_ullpos : bool }.
+Definition cfg_current : cfg := mkCfg false false false false.
+
 Section Lit.
   Variable F : Type.                         (* C double *)
   Variable fval : list N -> F.               (* strtod's value for a text of the right form *)
@@ -48,6 +60,8 @@ Section Lit.
   Variable f_is_zero : F -> bool.            (* d == 0 *)
   Variable f_neg : F -> bool.                (* d < 0 *)
   Variable f_trunc : F -> Z.                 (* (uint64_t)d / (int64_t)d where defined *)
+  Variable f_small : F -> bool.              (* -1 < d < 1 *)
+  Variable cf : cfg.
 
   Definition c_strtod (s : list N) : F * nat * bool :=
     let k := longest_prefix g_float s in
@@ -62,12 +76,14 @@ Section Lit.
   Definition at_end (semi_ok : bool) (s : list N) (e : nat) : bool :=
     match nth_error s e with None => true | Some c => semi_ok && (c =? 59) end.
 
-  (* one part of the token through strtoll, then strtoull, then strtod *)
-  Definition scan_part (base : nat) (semi_ok : bool) (s : list N) : option (ntype * nat) :=
+  (* one part of the token through strtoll, then strtoull, then strtod;
+     wantf = the caller wants a floating-point value for this part *)
+  Definition scan_part (wantf : bool) (base : nat) (semi_ok : bool) (s : list N) : option (ntype * nat) :=
     let '(iv, ie, ierr) := c_strtoll base s in
-    if negb ierr && at_end semi_ok s ie then Some (TInt iv, ie)
+    if negb ierr && at_end semi_ok s ie && negb (c_zero cf && wantf && (iv =? 0)%Z)
+    then Some (TInt iv, ie)
     else
-      let u := if ierr then
+      let u := if ierr && negb (c_ullpos cf && (iv <? 0)%Z) then
                  let '(uv, ue, uerr) := c_strtoull base s in
                  if negb uerr && at_end semi_ok s ue then Some (TUInt uv, ue) else None
                else None in
@@ -75,7 +91,8 @@ Section Lit.
       | Some r => Some r
       | None =>
           let '(d, de, derr) := c_strtod s in
-          if negb derr && at_end semi_ok s de then Some (TFloat d, de) else None
+          if (negb derr || c_oflow cf || (c_uflow cf && f_small d)) && at_end semi_ok s de
+          then Some (TFloat d, de) else None
       end.
 
   Inductive numres :=
@@ -95,24 +112,29 @@ Section Lit.
 
   Definition toktonum (pedantic : bool) (standards : nat) (w : want) (tok : list N) : numres :=
     let base := lit_base pedantic standards in
-    match scan_part base true tok with
+    let wre := match w with WComplex | WFloat => true | _ => false end in
+    let wim := match w with WComplex => true | _ => false end in
+    match scan_part wre base true tok with
     | None => NotNumber
     | Some (rt, e) =>
-        (* it: None = GD_NULL (no or zero imaginary part) *)
+        (* it: None = GD_NULL (no or zero imaginary part); di = the double strtod
+           left behind (only a zero that went through strtod can differ from +0) *)
         let im :=
           match nth_error tok e with
-          | None => Some None
+          | None => Some (None, f_zero)
           | Some _ =>
-              match scan_part base false (skipn (S e) tok) with
+              match scan_part wim base false (skipn (S e) tok) with
               | None => None
-              | Some (it, _) => Some (if nt_is_zero it then None else Some it)
+              | Some (it, _) =>
+                  Some (if nt_is_zero it then None else Some it,
+                        match it with TFloat d => d | _ => f_zero end)
               end
           end in
         match im with
         | None => NotNumber
-        | Some it =>
+        | Some (it, di) =>
             match w, it with
-            | WComplex, None => NumC (to_F rt) f_zero
+            | WComplex, None => NumC (to_F rt) (if c_zero cf then di else f_zero)
             | WComplex, Some i => NumC (to_F rt) (to_F i)
             | _, Some _ => BadNumber                 (* reject unwanted complex value *)
             | WFloat, None => NumF (to_F rt)
